@@ -900,7 +900,9 @@ func (ls *LanceroSource) distributeData(buffersMsg BuffersChanType) *dataBlock {
 		block.segments[channelIndex] = seg
 		block.nSamp = len(data)
 	}
-	ls.nextFrameNum += FrameIndex(framesUsed)
+	// The segments above start at nextFrameNum+droppedFrames: count the dropped frames, too, or the
+	// next block would be numbered as if they had never existed (i.e., before the end of this one).
+	ls.nextFrameNum += FrameIndex(droppedFrames + framesUsed)
 	ls.previousLastSampleTime = lastSampleTime
 	if ls.heartbeats != nil {
 		mb := float64(totalBytes) / 1e6
